@@ -25,3 +25,4 @@ mod h_count {
 mod h_wakemodel {
     include!(concat!(env!("UAZU_STAKKER_VERIF"), "/incrate/h_wakemodel.rs"));
 }
+
